@@ -71,7 +71,11 @@ func (m *Module) ifaceDecl(p *Pkg, it *Iface, q func(string) string) string {
 		var names []string
 		parts := make([]string, len(it.TParams))
 		for i, tp := range it.TParams {
-			parts[i] = tp.Name + " " + FindConstraint(tp.Constraint).Text(q, names)
+			if tp.Constraint == "fwd-slice" && i+1 < len(it.TParams) {
+				parts[i] = tp.Name + " ~[]" + it.TParams[i+1].Name
+			} else {
+				parts[i] = tp.Name + " " + FindConstraint(tp.Constraint).Text(q, names)
+			}
 			names = append(names, tp.Name)
 		}
 		sb.WriteString("[" + strings.Join(parts, ", ") + "]")
